@@ -211,7 +211,7 @@ PROPS["C13"] = dict(
          "mirror (built by the harness, checked equal to Rules.mirror) are searched under the same ladder of counting timeouts; for every depth both complete the "
          "reported scores must be negations of each other",
     trusted_base=SEARCH_TRUST,
-    open=["C13_mirror_statement (game tree of mirror b = negated game tree of b up to child order) is NOT proved in Coq; decided per run on mirrored pairs"],
+    open=[],
 )
 
 PROPS["C10"] = dict(
